@@ -36,8 +36,9 @@ Lemma seg_walk_plain client op exts size base log : forall steps1 cur rest,
   seg_walk client op exts size base cur (steps1 ++ rest) log =
   seg_walk client op exts size base (rev (map (rebase_step base) steps1) ++ cur) rest log.
 Proof.
+  unfold seg_walk.
   induction steps1 as [|st r IH]; intros cur rest H; [reflexivity|].
-  inversion H as [|? ? Hp Hr]; subst. cbn [app seg_walk map rev]. rewrite <- app_assoc. cbn [app].
+  inversion H as [|? ? Hp Hr]; subst. cbn [app seg_walk_with map rev]. rewrite <- app_assoc. cbn [app].
   destruct (s_op st); cbn [plain_op] in Hp; try contradiction; apply IH; assumption.
 Qed.
 
@@ -168,7 +169,7 @@ Lemma seg_run : forall n ops ws exts, (length ops <= n)%nat ->
 Proof.
   induction n as [|n IH]; intros ops ws exts Hn HG Hb Hops Hrest Hbud Hex.
   { destruct ops; [|cbn [length] in Hn; lia]. cbn [run_wops fst snd].
-    change (steps_of [] []) with (@nil wstep). cbn [seg_walk rev]. rewrite Hex.
+    change (steps_of [] []) with (@nil wstep). unfold seg_walk. cbn [seg_walk_with rev]. rewrite Hex.
     pose proof (segment_monitor [] ws (exts_compressed (w_exts ws)) (g_inv ws HG) Hb (g_dest ws HG)) as H.
     destruct (g_wf ws HG) as (Ho & _ & Hm).
     apply H; try assumption; [apply exts_comp_compressed, (g_exts ws HG)|constructor]. }
@@ -177,7 +178,7 @@ Proof.
   destruct (split_at_boundary ops Hops) as [Hall|(h1 & x & h2 & -> & H1 & Hxb & H2)].
   - (* one segment *)
     rewrite <- (app_nil_r (steps_of ops _)). rewrite seg_walk_plain by (apply steps_of_plain; assumption).
-    cbn [seg_walk]. rewrite app_nil_r, rev_involutive, map_rebase_steps_of, Hex.
+    unfold seg_walk. cbn [seg_walk_with]. rewrite app_nil_r, rev_involutive, map_rebase_steps_of, Hex.
     apply (segment_monitor ops ws (exts_compressed (w_exts ws))); try assumption.
     + exact (g_inv ws HG).
     + exact (g_dest ws HG).
@@ -223,14 +224,14 @@ Proof.
     rewrite Ecl in IHx.
     subst wx. destruct x as [p|data sizes|p| | |k| |xs|st o|o]; cbn [bnd_op bnd_apply] in *; try contradiction.
     + (* SetExtensions *)
-      cbn [seg_walk s_op s_obs]. cbn [observe o_calls o_size].
+      unfold seg_walk in *. cbn [seg_walk_with s_op s_obs]. cbn [observe o_calls o_size].
       change (w_dest (set_extensions xs w1)) with (w_dest w1).
       rewrite Hex, Hmon. cbn [andb].
       specialize (IHx xs Hn2 HGx Hbx H2 Hrest2 ltac:(lia) eq_refl).
       try rewrite E2 in IHx. cbn [fst snd] in IHx.
       change (w_op (set_extensions xs w1)) with (w_op w1) in IHx. rewrite (c_op _ _ _ _ Hc1) in IHx. exact IHx.
     + (* ResetOp *)
-      cbn [seg_walk s_op s_obs]. cbn [observe o_calls o_size o_buffered].
+      unfold seg_walk in *. cbn [seg_walk_with s_op s_obs]. cbn [observe o_calls o_size o_buffered].
       change (w_dest (reset_op o w1)) with (w_dest w1).
       rewrite Hex, Hmon. cbn [andb].
       change (w_n (reset_op o w1)) with 0. cbn [N.eqb andb].
@@ -365,4 +366,41 @@ Proof.
   pose proof (applies_iff ops w0 HG) as H. rewrite F2 in H. apply H; try assumption.
   - intros _. split; assumption.
   - rewrite F1, len_nil. lia.
+Qed.
+
+(* ------------------------------------------------------------------ C13, send side *)
+Lemma seg_walk_with_impl (j1 j2 : bool -> N -> bool -> N -> list wstep -> list (list byte) -> bool) :
+  (forall c o k s st l, j1 c o k s st l = true -> j2 c o k s st l = true) ->
+  forall steps client op exts size base cur log,
+  seg_walk_with j1 client op exts size base cur steps log = true ->
+  seg_walk_with j2 client op exts size base cur steps log = true.
+Proof.
+  intros Hj. induction steps as [|st r IH]; intros client op exts size base cur log H; cbn [seg_walk_with] in *.
+  - apply Hj. exact H.
+  - destruct (s_op st); try (apply IH; exact H).
+    + apply andb_true_iff in H. destruct H as [H1 H2]. rewrite (Hj _ _ _ _ _ _ H1), (IH _ _ _ _ _ _ _ H2). reflexivity.
+    + apply andb_true_iff in H. destruct H as [H12 H3]. apply andb_true_iff in H12. destruct H12 as [H1 H2].
+      rewrite (Hj _ _ _ _ _ _ H1), H2, (IH _ _ _ _ _ _ _ H3). reflexivity.
+Qed.
+
+Lemma c06_monitor_rsv c o k s st l : c06_monitor c o k s st l = true -> c13_rsv_judge c o k s st l = true.
+Proof.
+  unfold c06_monitor, c13_rsv_judge. destruct (frames_of (concat l)) as [fs|]; [|auto].
+  destruct (split_messages fs []) as [msgs tailf]. intros H.
+  apply andb_true_iff in H. destruct H as [H _]. apply andb_true_iff in H. destruct H as [H H3].
+  apply andb_true_iff in H. destruct H as [_ H2]. rewrite H2, H3. reflexivity.
+Qed.
+
+Theorem c13_segments_hold ops w0 :
+  writer_inv w0 -> fresh_writer w0 -> w_op w0 < 16 -> masks_ok w0 ->
+  (w_exts w0 = [] \/ exists c, w_exts w0 = [c]) ->
+  Forall seg_op ops -> set_ext_at_rest ops w0 -> 28 + 4 * ops_cost ops <= max_int ->
+  c13_segments_rsv (client_side (w_state w0)) (w_op w0) (w_exts w0) (w_buflen w0)
+    (steps_of ops (fst (run_wops ops w0))) (dest_log (w_dest (snd (run_wops ops w0)))) = true.
+Proof.
+  intros Hi Hf Ho Hm Hx Hops Hrest Hbud.
+  pose proof (c06_segments_hold ops w0 Hi Hf Ho Hm Hx Hops Hrest Hbud) as H.
+  unfold c06_segments_monitor in H. apply andb_true_iff in H. destruct H as [_ H].
+  unfold c06_segments_verdict, seg_walk in H. unfold c13_segments_rsv.
+  exact (seg_walk_with_impl _ _ c06_monitor_rsv _ _ _ _ _ _ _ _ H).
 Qed.
